@@ -13,7 +13,7 @@ Definition wf_init (g : list node) (init : list task) : Prop :=
 Definition root (g : list node) : nat := pred (List.length g).
 
 Section Top.
-  Variables (g : list node) (inv : N) (mc fixed : bool) (init : list task) (env : cenv).
+  Variables (g : list node) (inv : N) (mc : bool) (fixed : config) (init : list task) (env : cenv).
   Variables (st : cstate) (roots : list nat).
   Notation n0 := (List.length init).
   Hypothesis Hwf : wf_dag g.
@@ -136,7 +136,7 @@ Section Top.
   Theorem shuffle_wiring : forall t i, pipeline_task t i -> tshard t < tnshard t ->
     forall j d td, nth_error (ndeps (get_node g (last (tslices t) i))) j = Some d ->
                    nth_error (tdeps t) j = Some td -> dshuffle d = true ->
-    (fixed = true \/ nresult (get_node g (dtarget d)) = None) ->
+    (cfg_partitioned fixed = true \/ nresult (get_node g (dtarget d)) = None) ->
     dpart td = tshard t /\ dexp td = dexpand d
     /\ List.length (members (sstore st) td) = nshard (get_node g (dtarget d))
     /\ forall k m, nth_error (members (sstore st) td) k = Some m ->
@@ -325,7 +325,7 @@ Theorem shuffle_wiring_top : forall g inv mc fixed init env st roots,
                  /\ forall j d td,
                       nth_error (ndeps (get_node g (last (tslices t) i))) j = Some d ->
                       nth_error (tdeps t) j = Some td -> dshuffle d = true ->
-                      (fixed = true \/ nresult (get_node g (dtarget d)) = None) ->
+                      (cfg_partitioned fixed = true \/ nresult (get_node g (dtarget d)) = None) ->
                       wired_shuffle g inv init (sstore st) t (get_node g (last (tslices t) i)) d td)).
 Proof.
   intros g inv mc fixed init env st roots Hwf Hinit Hc id t Hid Ht.
